@@ -266,7 +266,8 @@ def main(argv):
         fails = {}
         for f in meta.get("impl_fails") or []:
             fails.setdefault(f["case"], f)
-        codes = dict(res["mismatches"])
+        codes = {k: v for k, v in res["mismatches"] if v != 99}
+        res["oom_cases"] = [k for k, v in res["mismatches"] if v == 99]   # twin says: outside the model
         if replay_in is not None and "case_index" in replay_in:
             ci = replay_in["case_index"]
             fails = {k: v for k, v in fails.items() if k == ci}
@@ -295,7 +296,7 @@ def main(argv):
             found = False
             if "error" not in sres:
                 sf = {f["case"]: f for f in sres["meta"].get("impl_fails") or []}
-                sc = {k: v for k, v in sres["mismatches"] if v >= 2}
+                sc = {k: v for k, v in sres["mismatches"] if v >= 2 and v != 99}
                 for ci in sorted(set(sf) | set(sc)):
                     f = sf.get(ci)
                     sig = f["sig"] if f else "%s/code%d" % (pid, sc[ci])
@@ -340,7 +341,7 @@ def main(argv):
         rule=(res["meta"]["rule"] if res else ""),
         samples=(res["meta"]["samples"][:6] if res else []) or ["(no cases were run)"],
         distribution=(res["meta"]["distribution"] if res else {}),
-        out_of_model=(res["meta"].get("out_of_model", 0) if res else 0),
+        out_of_model=((res["meta"].get("out_of_model", 0) + len(res.get("oom_cases", []))) if res else 0),
         exhaustive=bool(res and res["meta"].get("exhaustive")),
         model_vs_impl_disagreements=len(corr_only),
         spec_violations_on_impl=len(spec_viol),
